@@ -66,7 +66,6 @@ void OfflinePacketFilter::init(const string& pcap_filter,
     }
     if (pcap_compile(handle_, &filter_, pcap_filter.c_str(), 1, 0xffffffff) == -1) {
         string error(pcap_geterr(handle_));
-        pcap_freecode(&filter_);
         pcap_close(handle_);
         throw invalid_pcap_filter(error.c_str());
     }
